@@ -35,7 +35,11 @@ Clause(r, c) ==
                          \/ (\E k \in DOMAIN r.files : r.files[k].dest_pre # "absent")
                          \/ [k \in DOMAIN r.files |-> r.files[k].after] = ImplAfter(r)
     [] c = "C13.complete" -> r.status = "ok" /\ Complete(r.files)
-    [] c = "C13.count" -> r.status = "ok" /\ r.count >= 0 /\ r.count <= r.present_after
+    \* every counted file is present afterwards: a file can be counted once per time its metafile was
+    \* given (r.files[k].given; 1 unless the caller names the same metafile twice), and only if present
+    [] c = "C13.count" -> r.status = "ok" /\ r.count >= 0
+                          /\ r.count <= SumSeq([k \in DOMAIN r.files |->
+                                                   IF r.files[k].after \in {"absent", "n/a"} THEN 0 ELSE r.files[k].given])
     [] c = "C14.sources" -> r.sources_unchanged /\ r.metas_unchanged
     [] c = "C14.fulllen" -> FullLengthKept(r.files)
     [] c = "C14.copy" -> \A k \in DOMAIN r.written :
